@@ -69,19 +69,47 @@ NEEDS = {
 }
 
 
+def from_notes(src):
+    """(change, needs) for the later rounds: first heading of the sub-agent's notes.md and its 'what it needs' paragraph"""
+    import re
+    fn = os.path.join(src, "notes.md")
+    if not os.path.exists(fn):
+        return "see patch.diff", "see demo.py"
+    lines = open(fn).read().splitlines()
+    head = next((l for l in lines if l.strip()), "").strip("# ").strip()
+    head = re.sub(r"^C\d\d\s*/\s*(seed|change)\s*\d\s*[-\u2014\u2013]+\s*", "", head)
+    needs = ""
+    for i, l in enumerate(lines):
+        if re.search(r"needs|manifest|trigger", l, re.I) and (l.lstrip().startswith(("#", "**", "-", "*")) or l.strip().endswith(":")):
+            para = []
+            for m in lines[i:i + 14]:
+                if para and not m.strip():
+                    break
+                para.append(m.strip())
+            needs = " ".join(para)
+            break
+    return head[:300], (needs or "see notes.md")[:700]
+
+
 def main():
     out_root = os.path.join(V, "seeded")
     os.makedirs(out_root, exist_ok=True)
     summary = []
-    for key in sorted(NEEDS):
+    import glob
+    later = {}
+    for rnd, root in ((2, "/tmp/seed2_out"), (3, "/tmp/seed3_out")):
+        for d in sorted(glob.glob(root + "/C??/[123]")):
+            prop, k = d.split("/")[-2], int(d.split("/")[-1])
+            later[f"{prop}/{k + 3 * (rnd - 1)}"] = d
+    for key in sorted(list(NEEDS) + list(later)):
         prop, k = key.split("/")
-        src = f"/tmp/seed_out/{prop}/{k}"
+        src = later.get(key, f"/tmp/seed_out/{prop}/{k}")
         cj = os.path.join(src, "confirm.json")
         if not os.path.exists(cj):
             continue
         conf = json.load(open(cj))
         if not conf.get("ok"):
-            summary.append((key, "NOT-CONFIRMED", conf))
+            summary.append((key, "NOT-CONFIRMED", (conf.get("suite_unexpected") or conf.get("error") or "")[:3] if not isinstance(conf.get("error"), str) else conf.get("error")[:100]))
             continue
         sid = f"{prop}-{k}"
         dst = os.path.join(out_root, sid)
@@ -92,7 +120,7 @@ def main():
         det = seedeval.run(dst)
         caught = {p: v["keys"] for p, v in det.items() if isinstance(v, dict) and v.get("rc") == 1}
         errors = {p: v.get("tail", "")[-200:] for p, v in det.items() if isinstance(v, dict) and v.get("rc") == 2}
-        what, needs = NEEDS[key]
+        what, needs = NEEDS[key] if key in NEEDS else from_notes(src)
         meta = {
             "id": sid, "property": prop, "change": what, "needs_to_manifest": needs,
             "confirmed": {
